@@ -11,6 +11,7 @@ def run(tier, rep):
     q = tier == "quick"
     n = 14 if q else 150
     specs = families.goldens() + sample(families.gen_c01, rng, n) + sample(families.gen_shape, rng, n) + sample(families.gen_occ, rng, n) \
-        + sample(families.gen_flat, rng, 3 * n) + sample(families.gen_cascade, rng, n) + sample(families.gen_affine_plain, rng, n // 2)
+        + sample(families.gen_flat, rng, 3 * n) + sample(families.gen_cascade, rng, n) \
+        + sample(families.renamed(families.gen_shape), rng, n) + sample(families.renamed(families.gen_occ), rng, n // 2) + sample(families.renamed(families.gen_flat, "K", "I"), rng, n // 2) + sample(families.gen_affine_plain, rng, n // 2)
     run_exec("C07", tier, rep, specs, ("NamesTruthful", "InputsUnchanged", "OutputRestored", "Err: update writes into an input"), cap_q=24, cap_t=120, rng=rng,
              rule="union of the C01-C05 families (own seed offset)")
